@@ -249,6 +249,36 @@ func run(c *fw.Ctx) {
 		}
 		rec(0)
 	}
+	// time.Sleep sleeps in slices of 10 ms and looks at the VM between them: durations around that slice, through the
+	// route without a VM as well (the pool above stops at 1 ms because blocking is what Sleep is for)
+	c.Family("time.Sleep:durations", "durations 0, 1 ms, 10 ms, 10 ms + 1 ns, 25 ms through Call (no VM), CallEx with a VM and a script call")
+	sleep := utime.Module["Sleep"]
+	for _, d := range []int64{0, 1000000, 10000000, 10000001, 25000000} {
+		if !c.Next() {
+			continue
+		}
+		desc := fmt.Sprintf("time.Sleep(%d)", d)
+		rep := func(route string, o ugo.Object, err error, pan any) {
+			if pan != nil {
+				c.Violation(route+"|"+desc, fmt.Sprintf("%s panics via %s: %v", desc, route, pan), nil)
+			} else if err == nil && o == nil {
+				c.Violation(route+"|"+desc, fmt.Sprintf("%s via %s returns neither a value nor an error", desc, route), nil)
+			}
+		}
+		c.Mark("call|" + desc)
+		o, err, pan := protect(func() (ugo.Object, error) { return sleep.Call(ugo.Int(d)) })
+		rep("call", o, err, pan)
+		if ex, ok := sleep.(ugo.ExCallerObject); ok {
+			c.Mark("callex|" + desc)
+			o, err, pan = protect(func() (ugo.Object, error) { return ex.CallEx(ugo.NewCall(e.vm, []ugo.Object{ugo.Int(d)})) })
+			rep("callex", o, err, pan)
+		}
+		c.Mark("script|" + desc)
+		vm := ugo.NewVM(e.callBC)
+		o, err, pan = protect(func() (ugo.Object, error) { return vm.Run(nil, sleep, ugo.Int(d)) })
+		rep("script", o, err, pan)
+		c.Nontrivial()
+	}
 }
 
 func (e *env) args(idx []int) []ugo.Object {
